@@ -255,13 +255,15 @@ def render_fx(a, module) -> tuple[str, list[str]]:
   return '\n'.join(o), [f'DinoGen.{module}.{gid}_fx_gram']
 
 
+HEADER = ['/-! GENERATED on every run by harness/gen/shcert.py from the basis arrays that live',
+          '`dinosaur.spherical_harmonic.Grid` objects compute (`basis.f`, `basis.p`, `basis.w`, latitude nodes and',
+          'weights), as exact integers with a common binary exponent per array, with kernel-checked certificates.',
+          'Do not edit. -/']
+
+
 def render(arrs, module: str) -> tuple[str, list[str]]:
-  out = [f'import Dino.SHCheck2',
-         '/-! GENERATED on every run by harness/gen/shcert.py from the basis arrays that live',
-         '`dinosaur.spherical_harmonic.Grid` objects compute (`basis.f`, `basis.p`, `basis.w`, latitude nodes and',
-         'weights), as exact binary fixed point literals, with kernel-checked certificates.  Do not edit. -/',
-         'set_option maxRecDepth 100000',
-         f'namespace DinoGen.{module}', 'open Dino', '']
+  out = ['import Dino.SHCheck2'] + HEADER + ['set_option maxRecDepth 100000',
+                                             f'namespace DinoGen.{module}', 'open Dino', '']
   names = []
   for a in arrs:
     txt, ns = render_grid(a, module)
@@ -276,16 +278,28 @@ def render(arrs, module: str) -> tuple[str, list[str]]:
 
 
 def generate(tier='quick', lean_dir=None):
-  """Regenerate DinoGen/SHCert.lean (and SHCertX.lean in the thorough tier).
+  """Regenerate DinoGen/SHCert.lean (and, in the thorough tier, DinoGen/SHCertX.lean + one module per grid
+  under DinoGen/SHCertX/, so that lake checks them in parallel).
 
-  Returns dict(arrays=[per-grid dict], names=[quick certificate names], xnames=[thorough names], changed=bool)."""
+  Returns dict(arrays, xarrays, names=[quick certificate names], xnames=[thorough names],
+  xmodules=[lake targets], xfiles=[paths relative to lean/], changed=bool)."""
   lean_dir = lean_dir or common.LEAN
   arrs = [extract(c) for c in QUICK]
   txt, names = render(arrs, 'SHCert')
   changed = common.write_if_changed(os.path.join(lean_dir, 'DinoGen', 'SHCert.lean'), txt)
-  xarrs, xnames = [], []
+  xarrs, xnames, xmodules, xfiles = [], [], [], []
   if tier == 'thorough':
     xarrs = [extract(c) for c in THOROUGH]
-    xtxt, xnames = render(xarrs, 'SHCertX')
-    changed = common.write_if_changed(os.path.join(lean_dir, 'DinoGen', 'SHCertX.lean'), xtxt) or changed
-  return dict(arrays=arrs, xarrays=xarrs, names=names, xnames=xnames, changed=changed)
+    for a in xarrs:
+      gid = a['cfg'][0]
+      xtxt, ns = render([a], 'SHCertX')
+      rel = os.path.join('DinoGen', 'SHCertX', f'{gid.upper()}.lean')
+      changed = common.write_if_changed(os.path.join(lean_dir, rel), xtxt) or changed
+      xnames += ns
+      xmodules.append(f'DinoGen.SHCertX.{gid.upper()}')
+      xfiles.append(rel)
+    umbrella = '\n'.join([f'import {m}' for m in xmodules] + HEADER + [''])
+    changed = common.write_if_changed(os.path.join(lean_dir, 'DinoGen', 'SHCertX.lean'), umbrella) or changed
+    xmodules.append('DinoGen.SHCertX')
+  return dict(arrays=arrs, xarrays=xarrs, names=names, xnames=xnames, xmodules=xmodules, xfiles=xfiles,
+              changed=changed)
